@@ -6,7 +6,7 @@
    every closed bucket keeps its readings when more candles arrive. *)
 From Coq Require Import ZArith List String Bool.
 From Hexital Require Import Base.Prelude Base.Num Model.Manager Model.Candle Model.Readings Model.Engine
-  Proofs.EngineProofs Proofs.CausalProofs Proofs.ComposeProofs Proofs.CompositeProofs Proofs.AtrCompose Proofs.FillCompose Proofs.FillEngine.
+  Proofs.EngineProofs Proofs.CausalProofs Proofs.ComposeProofs Proofs.CompositeProofs Proofs.AtrCompose Proofs.FillCompose Proofs.FillEngine Proofs.DataSlot Proofs.DataInst Proofs.DataThms.
 Import ListNotations.
 Local Open Scope Z_scope.
 
@@ -81,3 +81,21 @@ Theorem C02_closed_buckets_final_with_fill :
   exists tl, D' = removelast D ++ tl.
 Proof. intros O I calc tf xs ys D D' Htf Hs HD HD'. eapply filled_closed_buckets_final; eassumption. Qed.
 Print Assumptions C02_closed_buckets_final_with_fill.
+
+(* the same two statements for the indicators that keep their state in one managed helper series
+   (VWAP, StandardDeviation, RSI; see C01_schedule_independence_data_series_indicators): one
+   calculate() over a longer stream extends the result over the shorter one, and appending to a
+   calculated indicator never changes an existing candle - its readings and the helper's *)
+Theorem C02_data_series_batch_is_causal :
+  forall (O : NumOps) (I : ind O) (key : string), data_node O I key -> data_kind O I key ->
+  forall (ds more : list (cd (payload O))) (r : store O), Forall (fresh_data O I) (ds ++ more) ->
+  calculate O I (ds ++ more) = Ok r -> exists mid tl, calculate O I ds = Ok mid /\ r = mid ++ tl.
+Proof. exact data_batch_is_causal. Qed.
+Print Assumptions C02_data_series_batch_is_causal.
+
+Theorem C02_data_series_append_keeps_calculated_candles :
+  forall (O : NumOps) (I : ind O) (key : string), data_node O I key -> data_kind O I key ->
+  forall (ds new : list (cd (payload O))) (st r : store O), Forall (fresh_data O I) ds -> Forall (fresh_data O I) new ->
+  calculate O I ds = Ok st -> calculate O I (st ++ new) = Ok r -> exists tl, r = st ++ tl.
+Proof. exact data_append_keeps_prefix. Qed.
+Print Assumptions C02_data_series_append_keeps_calculated_candles.
